@@ -96,3 +96,71 @@ Proof.
   - intros HF. inversion HF as [|? ? H1 H2]; subst.
     apply (item_count_max_iff R y Hy) in H1. apply IH in H2. nia.
 Qed.
+
+(* ---- the column sums the code computes are the sums of the items (columns) of the ratings matrix ---- *)
+Lemma zip_add_nil_l l : zip_add [] l = [].
+Proof. reflexivity. Qed.
+Lemma fold_zip_nil : forall rs, fold_left zip_add rs [] = [].
+Proof. induction rs as [|r rs IH]; cbn; [reflexivity|exact IH]. Qed.
+
+Lemma fold_zip_cons : forall rs h t, Forall (fun r => r <> []) rs ->
+  fold_left zip_add rs (h :: t) = (h + zsum (map (hd 0) rs)) :: fold_left zip_add (map (@tl Z) rs) t.
+Proof.
+  induction rs as [|r rs IH]; intros h t H; cbn [fold_left map zsum fold_right].
+  - f_equal. lia.
+  - inversion H as [|r' rs' Hr Hrs]; subst. destruct r as [|b s]; [congruence|].
+    cbn [zip_add hd tl]. rewrite IH by exact Hrs. f_equal. fold (zsum (map (hd 0) rs)). lia.
+Qed.
+
+Definition rect (m : list (list Z)) (ns : nat) : Prop := Forall (fun r => length r = ns) m.
+
+Lemma colsums_transpose_aux : forall ns m, m <> [] -> rect m ns -> colsums m = map zsum (transpose_aux ns m).
+Proof.
+  induction ns as [|ns IH]; intros m Hm Hr.
+  - destruct m as [|r rs]; [congruence|]. inversion Hr as [|r' rs' Hl Hrs]; subst.
+    destruct r; [|discriminate]. cbn [colsums transpose_aux map]. apply fold_zip_nil.
+  - destruct m as [|r rs]; [congruence|]. inversion Hr as [|r' rs' Hl Hrs]; subst.
+    destruct r as [|a r0]; [discriminate|].
+    cbn [colsums transpose_aux map hd tl].
+    assert (Hne : Forall (fun r => r <> []) rs).
+    { eapply Forall_impl; [|exact Hrs]. intros r1 H1 E. subst r1. discriminate. }
+    rewrite (fold_zip_cons rs a r0 Hne). cbn [zsum fold_right]. fold (zsum (map (hd 0) rs)). f_equal.
+    assert (Hr' : rect (r0 :: map (@tl Z) rs) ns).
+    { constructor; [cbn in Hl; lia|]. apply Forall_map. eapply Forall_impl; [|exact Hrs].
+      intros r1 H1. destruct r1; cbn in *; lia. }
+    specialize (IH (r0 :: map (@tl Z) rs) ltac:(discriminate) Hr'). cbn [colsums] in IH. exact IH.
+Qed.
+
+Theorem colsums_are_item_sums m ns : m <> [] -> rect m ns -> colsums m = map zsum (transpose m).
+Proof.
+  intros Hm Hr. destruct m as [|r rs]; [congruence|]. cbn [transpose].
+  inversion Hr as [|r' rs' Hl Hrs]; subst. apply colsums_transpose_aux; [discriminate|exact Hr].
+Qed.
+
+(* every item (column) of a binary rectangular matrix is a binary list of R ratings *)
+Lemma transpose_aux_items : forall ns m, Forall binary m -> rect m ns ->
+  Forall (fun c => binary c /\ length c = length m) (transpose_aux ns m).
+Proof.
+  induction ns as [|ns IH]; intros m Hb Hr; cbn [transpose_aux]; [constructor|].
+  constructor.
+  - split; [|apply map_length]. unfold binary. apply Forall_map.
+    unfold rect in Hr. rewrite Forall_forall in *. intros r Hin. specialize (Hb r Hin). specialize (Hr r Hin).
+    destruct r as [|a r0]; [discriminate|]. cbn [hd]. unfold binary in Hb. inversion Hb; assumption.
+  - assert (L : length (map (@tl Z) m) = length m) by apply map_length.
+    rewrite <- L. apply IH.
+    + apply Forall_map. eapply Forall_impl; [|exact Hb]. intros r H. destruct r; [constructor|]. cbn. unfold binary in H. inversion H; assumption.
+    + unfold rect. apply Forall_map. eapply Forall_impl; [|exact Hr]. intros r H. destruct r; cbn in *; lia.
+Qed.
+
+(* numerator of compute_ts = twice the number of (item, unordered rater pair) agreements *)
+Theorem total_count_is_twice_agreements m ns : m <> [] -> Forall binary m -> rect m ns ->
+  total_count (Z.of_nat (length m)) (colsums m) = 2 * zsum (map agree_col (transpose m)).
+Proof.
+  intros Hm Hb Hr. rewrite (colsums_are_item_sums m ns Hm Hr). unfold total_count.
+  destruct m as [|r rs]; [congruence|]. cbn [transpose].
+  assert (Hl : length r = ns) by (inversion Hr; assumption). rewrite Hl.
+  assert (Hit := transpose_aux_items ns (r :: rs) Hb Hr).
+  induction Hit as [|c cs [Hc Lc] _ IH]; cbn [map zsum fold_right]; [reflexivity|].
+  fold (zsum (map (item_count (Z.of_nat (length (r :: rs)))) (map zsum cs))) (zsum (map agree_col cs)).
+  rewrite IH. rewrite <- Lc. rewrite <- (agree_col_formula c Hc). lia.
+Qed.
